@@ -115,6 +115,11 @@ def value_of(c):
         return DT(*c["dt"], tzinfo=tz)
     if k == "obj":
         return obj(c["name"])[0]
+    if k == "time":
+        tz = None
+        if c.get("tz") is not None:
+            tz = datetime.timezone(datetime.timedelta(minutes=c["tz"]))
+        return datetime.time(*c["hms"], tzinfo=tz)
     if k == "npdt":
         return numpy.datetime64(c["text"], c["unit"])
     if k == "pandas":
@@ -151,6 +156,8 @@ def model_input(v):
         return ["date", v.year, v.month, v.day]
     if t is numpy.datetime64 or hasattr(v, "to_pydatetime"):
         return None
+    if isinstance(v, datetime.time):
+        return ["time", v.hour, v.minute, v.second, v.microsecond]
     return ["other"]
 
 
@@ -245,6 +252,8 @@ def expected(c, v):
         return ("any",)
     if k == "obj":
         return ("any",) if obj(c["name"])[1] else ("none",)
+    if k == "time":
+        return ("none",)
     return ("any",)
 
 
@@ -379,10 +388,6 @@ def evaluate(ctx, cases):
                 ctx.disagree(c, ip, mp, "parse_iso vs Iso.parseIso")
                 continue
             for k in ("DATE", "TIMESTAMP", "TIME"):
-                if k == "TIME" and c.get("kind") == "obj" and c.get("name") == "time":
-                    # interim (main): parse_time now returns a native time unchanged (repair C16-F06, outside
-                    # this property's statement); the model update is in progress in the builder's workspace
-                    continue
                 if k in m and cast_model_out(m[k]) != out[k]:
                     ctx.disagree(c, {k: out[k]}, {k: m[k]}, "OrsoTypes.%s.parse vs Iso.cast" % k)
                     break
@@ -545,11 +550,29 @@ def native_cases(ctx, n):
 
 
 def object_cases(ctx):
+    """Deterministic (seed independent): every foreign object and every native kind, each with all three casts."""
     global OBJ
     if OBJ is None:
         OBJ = _objects()
     for name in OBJ:
         yield {"kind": "obj", "name": name, "casts": True}
+    for hms in [[0, 0, 0, 0], [1, 2, 3, 0], [23, 59, 59, 999999], [12, 0, 0, 500000]]:
+        yield {"kind": "time", "hms": hms, "casts": True}
+        yield {"kind": "time", "hms": hms, "tz": 60, "casts": True}
+    for y, m, d in EDGE_DAYS:
+        yield {"kind": "date", "ymd": [y, m, d], "casts": True}
+        for hmsu in ([0, 0, 0, 0], [23, 59, 59, 999999], [1, 2, 3, 4]):
+            yield {"kind": "datetime", "dt": [y, m, d] + hmsu, "casts": True}
+            yield {"kind": "datetime", "dt": [y, m, d] + hmsu, "tz": -300, "casts": True}
+    for n in [0, 1, -1, 86399, MIN_EPOCH, MAX_EPOCH, MAX_EPOCH + 1, 10**30]:
+        yield {"kind": "int", "n": n, "casts": True}
+        yield {"kind": "float", "x": float(n), "casts": True}
+        if -(2**63) <= n < 2**63:
+            yield {"kind": "npint", "n": n, "casts": True}
+            yield {"kind": "npfloat", "x": float(n), "casts": True}
+    for t in ["2023-04-18", "2023-04-18T12:34", "2023-04-18 12:34:56", "2023-04-18T12:34:56.789Z", "2023-04-18T12:34:56+05:00", "12:34:56", "1234", "", "x"]:
+        yield {"kind": "text", "text": t, "casts": True}
+        yield {"kind": "bytes", "bytes": t.encode(), "casts": True}
     for text, unit in [("2023-01-01", "D"), ("2023-01-01T12:34:56", "s"), ("2023-01-01T12:34:56.789", "ms"), ("2023-01-01T12:34:56.789", "us"),
                        ("2023-01-01T12:34:56.789", "ns"), ("NaT", "s"), ("1969-12-31T23:59:59.5", "ns"), ("2023", "Y"), ("2023-01-01T00", "h"),
                        ("0001-01-01", "D"), ("9999-12-31T23:59:59", "s"), ("1677-09-22", "ns"), ("2262-04-11", "ns")]:
